@@ -418,7 +418,9 @@ def addrec_bis(l_sets, marked_left, marked_right):
 def addrec_ter(l_sets, marked_left):
     """addrec
     Explores all possible combination of consumption rules to mark a
-    production rule.
+    production rule: for every non-terminal on the left of a consumption
+    rule, one of its consumption rules and one set marked for the right side
+    of that rule are chosen; the union of the choices is marked.
     :param l_sets: a list containing tuples (C, M) where:
         * C is a non-terminal on the left of a consumption rule
         * M is the set of the marked set for the right non-terminal in the
@@ -427,48 +429,20 @@ def addrec_ter(l_sets, marked_left):
     left of the production rule
     :return Whether an element was actually marked
     """
-    # End condition, nothing left to process
-    temp_in = [x[0] for x in l_sets]
-    exists_after = [
-        exists(l_sets[index + 1:], lambda x: x[0] == l_sets[index][0])
-        for index in range(len(l_sets))]
-    exists_before = [l_sets[index][0] in temp_in[:index]
-                     for index in range(len(l_sets))]
-    marked_sets = [l_sets[index][1] for index in range(len(l_sets))]
-    marked_sets = [sorted(x, key=lambda x: -len(x)) for x in marked_sets]
-    # Try to optimize by having an order of the sets
-    sorted_zip = sorted(zip(exists_after, exists_before, marked_sets),
-                        key=lambda x: -len(x[2]))
-    exists_after, exists_before, marked_sets = \
-        zip(*sorted_zip)
+    groups = {}
+    for left, marked_sets in l_sets:
+        alternatives = groups.setdefault(left, [])
+        for marked_set in marked_sets:
+            if marked_set not in alternatives:
+                alternatives.append(marked_set)
+    combinations = {frozenset()}
+    for alternatives in groups.values():
+        combinations = {done.union(choice)
+                        for done in combinations
+                        for choice in alternatives}
     res = False
-    # contains tuples of index, temp_set
-    to_process = [(0, frozenset())]
-    done = set()
-    while to_process:
-        index, new_temp = to_process.pop()
-        if index >= len(l_sets):
-            # Check if at least one non-terminal was considered, then if the
-            # set of non-terminals considered is marked of the right
-            # non-terminal in the production rule, then if a new set is
-            # marked or not
-            if new_temp not in marked_left:
-                marked_left.add(new_temp)
-                res = True
-            continue
-        if exists_before[index] or exists_after[index]:
-            to_append = (index + 1, new_temp)
-            to_process.append(to_append)
-        if not exists_before[index]:
-            # For all sets which were marked for the current consumption rule
-            for marked_set in marked_sets[index]:
-                if marked_set <= new_temp:
-                    to_append = (index + 1, new_temp)
-                elif new_temp <= marked_set:
-                    to_append = (index + 1, marked_set)
-                else:
-                    to_append = (index + 1, new_temp.union(marked_set))
-                if to_append not in done:
-                    done.add(to_append)
-                    to_process.append(to_append)
+    for new_temp in combinations:
+        if new_temp not in marked_left:
+            marked_left.add(new_temp)
+            res = True
     return res
